@@ -973,12 +973,11 @@ class ModuleVistor(NodeVisitor):
             other_fields = []
             for field in pdoc.fields:
                 tag = field.tag()
-                if tag == 'return':
-                    if not pdoc.has_body:
-                        pdoc = field.body()
-                        # Avoid format_summary() going back to the original
-                        # empty-body docstring.
-                        attr.docstring = ''
+                if tag == 'return' and not pdoc.has_body:
+                    pdoc = field.body()
+                    # Avoid format_summary() going back to the original
+                    # empty-body docstring.
+                    attr.docstring = ''
                 elif tag == 'rtype':
                     attr.parsed_type = field.body()
                 else:
